@@ -112,6 +112,63 @@ for name, fn, nmax, required in FUNCS:
                     rep.fail(f"results::{sig_shape}", f"{shape}: got {got} want {sorted(want)}", shape)
                 elif sorted(evaluated_calls) != sorted(want_calls):
                     rep.fail(f"invocations::{sig_shape}", f"{shape}: invoked {sorted(evaluated_calls)} want once per binding {sorted(want_calls)}", shape)
+# ---- arguments that are not plain variables: attribute / index mappings of a variable stand for values of the query too
+@dataclass(eq=False)
+class Box:
+    v: int
+    vs: list
+
+
+boxes = [Box(0, [0, 5]), Box(1, [1, 0]), Box(2, [2, 9])]
+for name, fn, nmax, required in FUNCS[1:2] + FUNCS[3:4]:
+    sym = symbolic_function(fn) if not isinstance(fn, type) else fn
+    for kind in ("attribute", "index"):
+        for pos in (True, False):
+            del CALLS[:]
+            b = let(Box, boxes)
+            arg = b.v if kind == "attribute" else b.vs[0]
+            shape = {"callable": name, "argument": kind, "positional": pos}
+            st, r = guarded(lambda: sym(arg, 1) if pos else sym(p0=arg, p1=1))
+            rep.case(("argkind", name, kind, pos), sample=shape)
+            sig = f"{'predicate' if isinstance(fn, type) else 'function'}::{kind}-argument::{'positional' if pos else 'keyword'}"
+            if st == "exc" or not isinstance(r, SymbolicExpression) or CALLS:
+                rep.fail(f"not-deferred::{sig}", f"{shape}: {st} {r!r} calls={CALLS}", shape)
+                continue
+            st, rows = guarded(lambda: [x.v for x in an(entity(b, r)).evaluate()])
+            if st == "exc" or sorted(rows) != [2]:
+                rep.fail(f"results::{sig}", f"{shape}: got {rows!r}, want [2]", shape)
+
+
+# ---- one predicate class used twice in a query with the same values bound to different parameters
+@dataclass(eq=False)
+class InRange(Predicate):
+    is_expensive = True
+    value: int
+    low: int = 0
+    high: int = 100
+
+    def __call__(self):
+        CALLS.append(("InRange", self.value, self.low, self.high))
+        return self.low <= self.value <= self.high
+
+
+def _ir(value, low=0, high=100):
+    return low <= value <= high
+
+
+TWO_USES = [("InRange(x, 5) and InRange(x, high=5)", lambda x: and_(InRange(x, 5), InRange(x, high=5)), lambda v: _ir(v, 5) and _ir(v, high=5)),
+            ("InRange(x, high=5) and InRange(x, 5)", lambda x: and_(InRange(x, high=5), InRange(x, 5)), lambda v: _ir(v, high=5) and _ir(v, 5)),
+            ("InRange(x, 5, 50) and InRange(x, 50, 5)", lambda x: and_(InRange(x, 5, 50), InRange(x, 50, 5)), lambda v: _ir(v, 5, 50) and _ir(v, 50, 5)),
+            ("InRange(5, x) and InRange(x, 5)", lambda x: and_(InRange(5, x), InRange(x, 5)), lambda v: _ir(5, v) and _ir(v, 5)),
+            ("InRange(x, low=7) and InRange(x, high=7)", lambda x: and_(InRange(x, low=7), InRange(x, high=7)), lambda v: _ir(v, low=7) and _ir(v, high=7))]
+for label, uses, concrete in TWO_USES:
+    for _round in range(2):          # twice: what the first evaluation remembered must not leak into the second
+        x = let(int, [1, 5, 7, 50])
+        st, r = guarded(lambda: sorted(an(entity(x, uses(x))).evaluate()))
+        want = [v for v in [1, 5, 7, 50] if concrete(v)]
+        rep.case(("two-uses", label, _round), sample={"condition": label})
+        if st == "exc" or r != want:
+            rep.fail("results::predicate::two-uses-of-one-class", f"{label} over [1, 5, 7, 50]: got {r!r}, the concrete calls give {want}", {"condition": label})
 # ---- a keyword written after a left-out default; and two callables with the same qualified name
 def f4(p0, p1=0, p2=10):
     CALLS.append(("f4", p0, p1, p2))
